@@ -1,6 +1,6 @@
 (* C12 - Variable-length data round-trips through the global heap.
    Model: Model/GHeap.v (transcription of global_heap_write.go, internal/core/globalheap.go, the vlen
-   datatype message encoder (repaired, notes/fixes/vlen-datatype-header.patch) and
+   datatype message encoder (repaired: /repo 71914eb, notes/fixes/vlen-datatype-header.patch) and
    ParseDatatypeMessage).  Lemmas: Proofs/GHeap.v.
    [minsz] = globalHeapWriter.minCollectionSize, [blk] = the rounding unit of createNewHeap (both 4096
    in the source); params_ok: 0 < blk, blk mod 8 = 0, minsz mod 8 = 0, minsz + blk <= 1048000.
@@ -64,6 +64,11 @@ Theorem C12_vlen_datatype_old_refuted : forall b, exists m d,
   /\ vlen_recognised b m = false.
 Proof. exact C12_vlen_dt_old_lemma. Qed.
 Print Assumptions C12_vlen_datatype_old_refuted.
+
+(* the shipped constants satisfy the side conditions of the theorems above *)
+Theorem C12_params_shipped : params_ok 4096 4096.
+Proof. exact params_shipped. Qed.
+Print Assumptions C12_params_shipped.
 
 (* non-vacuity: a concrete history (empty element, exact fill, roll-over, foreign allocation, 70 000
    byte element, embedded NULs and UTF-8) runs, resolves, is well-formed; the predicate rejects the
